@@ -8,6 +8,7 @@ import GoBT.Driver.Addr
 import GoBT.Driver.Interp
 import GoBT.Driver.Ord
 import GoBT.Driver.Conc
+import GoBT.Driver.Outputs
 open GoBT GoBT.Driver
 
 def dispatch (op : String) (args : List String) (impl : String) : Answer :=
@@ -45,6 +46,10 @@ def dispatch (op : String) (args : List String) (impl : String) : Answer :=
   | "C16.utxos" => c16List args impl
   | "C15.str" => c15Str args impl
   | "C15.key" => c15Key args impl
+  | "C15.out" => c15Out args impl
+  | "C14.opret" => c14OpRet args impl
+  | "C14.puzzle" => c14Puzzle args impl
+  | "C01.misc" => c01Misc args impl
   | "C17.rt" => c17Rt args impl
   | "C17.dec" => c17Dec args impl
   | "IX.exec" => ixExec args impl
